@@ -460,14 +460,19 @@ def rules(repo=None):
 
 
 EXPLANATION = (
-    "R1: in mirror_to_dest the staging path is dest_dir/'tmp.'+name, the complete list of file-system operations is "
-    "{makedirs(dest_dir), mirror_fun(src, tmp), rename(tmp, final), rmdir(src_dir)} (anything else that touches source, staged "
-    "copy or destination is reported), rename is preceded by mirror_fun on every path, and tmp. names are outside the "
-    "listing/event grammar. R2: every operation is inside the non-re-raising OSError handler; on_deleted is not overridden and on_moved only mirrors the new name (its absence is reported: "
-    "the move-mode ringbuffer tracks moved files). R3: the constructor's if-chains are executed abstractly for all 24 (method, include_drf, include_dmd, link) "
-    "rows and the handlers built are checked: RF in exactly one handler, shutil.move only with metadata/properties excluded, "
-    "copy handler copies properties/metadata of the included kinds, move mode adds a count=1 metadata ringbuffer. R4: start() "
-    "replays existing files to every handler. R5: the already-mirrored test compares content (filecmp shallow=False) and no mirror function swallows FileExistsError on the staging name. Does NOT decide byte identity or crash points inside shutil.move.")
+    'R1: in mirror_to_dest (private helpers inlined, copies of names left by inlining substituted) the staging path is '
+    "dest_dir/'tmp.'+name, the complete list of file-system operations is {makedirs(dest_dir), mirror_fun(src, tmp), "
+    'rename(tmp, final), rmdir(src_dir)} (anything else that touches source, staged copy or destination is reported), '
+    'rename is preceded by mirror_fun on every path, and tmp. names are outside the listing/event grammar. R2: every '
+    'operation is inside the non-re-raising OSError handler; on_deleted is not overridden and on_moved only hands '
+    'event.dest_path, and on_created / on_modified hand event.src_path, to mirror_to_dest unconditionally (through '
+    "helpers or not) (its absence is reported: the move-mode ringbuffer tracks moved files). R3: the constructor's if-"
+    'chains are executed abstractly for all 24 (method, include_drf, include_dmd, link) rows and the handlers built are '
+    'checked: RF in exactly one handler, shutil.move only with metadata/properties excluded, copy handler copies '
+    'properties/metadata of the included kinds, move mode adds a count=1 metadata ringbuffer. R4: start() replays '
+    'existing files to every handler. R5: the already-mirrored test compares content (filecmp shallow=False) and no '
+    'mirror function swallows FileExistsError on the staging name. Does NOT decide byte identity or crash points inside '
+    'shutil.move.')
 TECHNIQUE = ('Python ast; complete operation table of mirror_to_dest; CFG ordering; abstract execution of the constructor over all option rows; regular-language emptiness for tmp. names')
 ASSUMPTIONS = ["os.rename within the destination directory is atomic", "shutil.copy2/os.link produce a complete file before returning"]
 FILES = [MR, "python/digital_rf/list_drf.py", "python/digital_rf/ringbuffer.py"]
